@@ -57,7 +57,8 @@ def kw_for(rng, method, allow_bad=True):
 
 
 CONTENT_CLASSES = ["plain", "multiline", "crlf", "cr", "bom", "nofinalnl", "empty", "multibyte", "large", "not_utf8", "exact"]
-HUGE_CLASSES = ["huge_crlf", "huge_mixed", "boundary"]      # > 64 Ki characters: block-wise readers meet their block edges
+HUGE_CLASSES = ["huge_crlf", "huge_mixed", "boundary"]
+LAST_EXACT = []      # side channel of make_content: the pattern name an "exact" content was built for      # > 64 Ki characters: block-wise readers meet their block edges
 
 
 def make_content(rng, names, cls, tier):
@@ -82,6 +83,8 @@ def make_content(rng, names, cls, tier):
         # the whole file is one match of one of the run's patterns (short, > 8 Ki or > 64 Ki characters)
         cands = [nm for nm in names if nm in corpus.EXACT]
         if cands:
+            LAST_EXACT.append(rng.choice(cands))
+            cands = [LAST_EXACT[-1]]
             n = rng.choice([3, 12, 40, 40, 5000, 8191, 8192, 8193, 9000, 9000] if tier == "thorough" or rng.random() < 0.5
                            else [3, 12, 40, 200, 9000])
             return corpus.EXACT[rng.choice(cands)](n).encode("utf-8")
@@ -144,7 +147,7 @@ def generate(run_seed, tier):
     patterns = {"p%d" % i: corpus.recipe_of(n) for i, n in enumerate(names)}
     nfiles = wl.randint(1, 3)
     paths = wl.sample(PATHS, nfiles)
-    files, classes = {}, {}
+    files, classes, exact_for = {}, {}, {}
     enabled_classes = wl.sample(CONTENT_CLASSES, wl.randint(2, 5))
     if wl.random() < (0.04 if tier == "quick" else 0.08):
         enabled_classes = [wl.choice(HUGE_CLASSES)]
@@ -157,7 +160,10 @@ def generate(run_seed, tier):
             if v > 0 and wl.random() < 0.45:
                 vs.append(same_length_variant(wl, vs[-1]))
             else:
+                del LAST_EXACT[:]
                 vs.append(make_content(wl, names, cls if (v == 0 or wl.random() < 0.7) else wl.choice(enabled_classes), tier))
+                if LAST_EXACT:
+                    exact_for.setdefault(p, "p%d" % names.index(LAST_EXACT[-1]))
         files[p] = [x.hex() for x in vs]
     fault_kinds = fl.sample(["short", "split", "EINTR", "EIO", "ENOENT", "EACCES", "EISDIR"], fl.randint(0, 4))
     fault_rate = fl.choice([0.0, 0.3, 0.6]) if fault_kinds else 0.0
@@ -213,6 +219,12 @@ def generate(run_seed, tier):
                 ops.append({"op": "call", "method": m, "pattern": pid, "path": path, "kw": kw,
                             "faults": faults_for()})
         tasks.append(ops)
+    # a file that is one whole match of a pattern: ask that pattern about it (whole-text matches are where prefix /
+    # block shortcuts go wrong)
+    for p, pid in sorted(exact_for.items()):
+        t = wl.randrange(len(tasks))
+        for m in wl.sample(["is_exact_match", "has_match", "get_matches_and_pos", "split_by_match", "get_matches_with_context"], 3):
+            tasks[t].insert(wl.randint(0, len(tasks[t])), {"op": "call", "method": m, "pattern": pid, "path": p, "kw": {}, "faults": []})
     # writer task
     wops = []
     for p in paths:
